@@ -47,21 +47,33 @@ type errReader struct{}
 func (errReader) Read([]byte) (int, error) { return 0, errors.New("unreadable body") }
 
 // the rig's SourceToAddress (mirrored by C19c.rig_route)
+// trAddrClass: how the rig spells the address of peer n. The connection table is keyed by these strings, so every family
+// that involves the table runs once per class: lower case, UPPER case, Mixed case with a port, non-ASCII. All of them
+// contain a space: not a host name, so a Write to it fails in http.NewRequest, without any network.
+var trAddrClasses = map[string]string{"lower": "h %d", "upper": "H %d", "mixed": "Peer-A.Local %d:9", "unicode": "Hôte-É %d"}
+var trAddrClass = "lower"
+
+func trAddr(n int) string { return fmt.Sprintf(trAddrClasses[trAddrClass], n) }
+
+// the rig's SourceToAddress (mirrored by C19c.rig_route)
 func trMapSource(src string) (string, error) {
 	switch src {
 	case "a", "d":
-		return "h 0", nil // not a host name: a Write to it fails in http.NewRequest, without any network
+		return trAddr(0), nil
 	case "b":
-		return "h 1", nil
+		return trAddr(1), nil
 	case "c":
-		return "h 2", nil
+		return trAddr(2), nil
 	}
 	return "", errors.New("unknown source")
 }
 
+// trAddrToken: the peer number of an address, however it is spelt (the digits after the last space)
 func trAddrToken(a string) int {
-	var n int
-	fmt.Sscanf(a, "h %d", &n)
+	n := -1
+	if i := strings.LastIndex(a, " "); i >= 0 {
+		fmt.Sscanf(a[i+1:], "%d", &n)
+	}
 	return n
 }
 
@@ -261,7 +273,7 @@ func runHttp(t *testing.T, interval, timeout int, acts []htAct) (h *htRun, leake
 				}()
 			case "N":
 				coq = []string{fmt.Sprintf("HNewConn %d", a.C)}
-				rw := goh.NewConnection(fmt.Sprintf("h %d", a.C))
+				rw := goh.NewConnection(trAddr(a.C))
 				h.mu.Lock()
 				h.connIndex(rw)
 				h.mu.Unlock()
@@ -398,7 +410,7 @@ func emitHttp(em *Emitter, t *testing.T, idx int, interval, timeout int, acts []
 	unguard := trGuard(em, idx, "http-lockstep", map[string]any{"interval": interval, "timeout": timeout, "acts": acts}, []string{"http:" + tag})
 	h, leaked := runHttp(t, interval, timeout, acts)
 	unguard()
-	tags := []string{"http:" + tag, fmt.Sprintf("http-len:%d", len(acts))}
+	tags := []string{"http:" + tag, fmt.Sprintf("http-len:%d", len(acts)), "http-addr:" + trAddrClass}
 	if leaked {
 		tags = append(tags, "http-leaked")
 	}
@@ -455,6 +467,26 @@ func TestC19Http(t *testing.T) {
 			idx++
 		}
 	}
+	// (1b) the connection TABLE under every spelling of the address (lower / UPPER / Mixed case with a port / non-ASCII):
+	// idle timeout with a waiting reader and with a parked request, unregistration by a failing Write, NewConnection twice,
+	// a request for a connection made by NewConnection, a reader across two cleaner ticks
+	for _, class := range []string{"upper", "mixed", "unicode", "lower"} {
+		trAddrClass = class
+		for _, acts := range [][]htAct{
+			{{Op: "N", C: 0}, {Op: "R", C: 0}, {Op: "A", D: 60}, {Op: "A", D: 60}, {Op: "A", D: 60}, {Op: "R", C: 0}},
+			{{Op: "N", C: 1}, {Op: "R", C: 0}, {Op: "R", C: 0}, {Op: "A", D: 180}},
+			{{Op: "P", Kind: "ok:a"}, {Op: "A", D: 60}, {Op: "A", D: 60}, {Op: "P", Kind: "ok:a"}, {Op: "R", C: 1}},
+			{{Op: "N", C: 0}, {Op: "R", C: 0}, {Op: "WF", C: 0}, {Op: "N", C: 0}, {Op: "P", Kind: "ok:d"}, {Op: "R", C: 1}},
+			{{Op: "N", C: 1}, {Op: "N", C: 1}, {Op: "P", Kind: "ok:b"}, {Op: "R", C: 0}, {Op: "A", D: 60}, {Op: "A", D: 60}, {Op: "R", C: 0}},
+			{{Op: "P", Kind: "ok:c"}, {Op: "R", C: 0}, {Op: "R", C: 0}, {Op: "A", D: 90}, {Op: "A", D: 90}, {Op: "N", C: 2}, {Op: "R", C: 1}, {Op: "A", D: 180}},
+		} {
+			if want(idx) {
+				emitHttp(em, t, idx, interval, timeout, acts, "addr-class")
+			}
+			idx++
+		}
+	}
+	trAddrClass = "lower"
 	// (2) every placement of ticks relative to a blocked delivery: all sequences over a focused alphabet
 	maxLen := 4
 	if thorough() {
@@ -552,9 +584,11 @@ func TestC19Http(t *testing.T) {
 				}
 			}
 		}
+		trAddrClass = []string{"lower", "lower", "upper", "mixed", "unicode"}[r.Intn(5)]
 		if want(idx) {
 			emitHttp(em, t, idx, iv, tmo, acts, "random")
 		}
+		trAddrClass = "lower"
 		idx++
 	}
 }
